@@ -489,7 +489,7 @@ pub fn run(tier: &str) -> i32 {
         if rep.capped {
             exhaustive = false;
         }
-        if rep.completed_depth < 3 {
+        if rep.completed_depth < 2 {
             o.machinery_errors.push(format!("pass {name} completed only depth {}", rep.completed_depth));
         }
         for (sig, f) in triage(&prop, rep.violations) {
